@@ -435,11 +435,22 @@ Definition emb_load_entity (self : embreg) (r : grec) : exc nat := grec_entity r
 (* a directory registry: the listing of "/" (name, is a file, the record in it), the extensions *)
 Record fsreg := FSR { fsr_listing : list (string * bool * grec); fsr_exts : list string }.
 Record finfo := FI { fi_name : string }.
-Definition fsreg_files (self : fsreg) : list string := map (fun e => String "*"%char (String "."%char e)) (fsr_exts self).
-(* self.fs.filterdir("/", files=patterns, exclude_dirs=["*"]) *)
+(* "*.{}".format(extension) *)
+Definition fmt_glob_ext (e : string) : string := String "*"%char (String "."%char e).
+Definition fsreg_files (self : fsreg) : list string := map fmt_glob_ext (fsr_exts self).
+(* one fnmatch pattern of the form "*" + literal text (the only form _files builds; extensions
+   are taken to contain no fnmatch metacharacter), matched ignoring case: pyfilesystem reports the OS
+   file system as case-insensitive *)
+Definition glob1 (p name : string) : bool :=
+  match p with
+  | String "*"%char suf => ends_with (lower suf) (lower name)
+  | _ => String.eqb (lower p) (lower name)
+  end.
+(* self.fs.filterdir("/", files=patterns, exclude_dirs=["*"]): the files of the listing whose name
+   matches one of the patterns *)
 Definition fs_filterdir (self : fsreg) (path : string) (files : list string) (exclude_dirs : list string) : list finfo :=
   map (fun e => FI (fst (fst e)))
-      (filter (fun e => snd (fst e) && glob_matches (fsr_exts self) (fst (fst e))) (fsr_listing self)).
+      (filter (fun e => snd (fst e) && existsb (fun p => glob1 p (fst (fst e))) files) (fsr_listing self)).
 (* fs.path.splitext(name) *)
 Definition py_splitext (name : string) : string * string :=
   let st := splitext_stem name in (st, substring (String.length st) (String.length name - String.length st) name).
